@@ -1,3 +1,4 @@
+import re
 """C16 — the bundled reflection database is coherent and closed under both codecs.
 C16.data (exhaustive referential integrity / typing of database.msgpack), C16.oblig (database-dependent panic
 sites of the codecs <-> the data obligation that discharges each), C16.load (msgpack shape vs ADTs), C16.closed."""
@@ -374,6 +375,35 @@ def rule_dflt(c, prog):
             c.ok(R, "dflt:own-defaults-before-chain-end")
 
 
+def rule_gen(c, prog, R="C16.gen"):
+    """the generator refuses a patch that names something the dump does not have"""
+    c.rule(R, "rbx_reflector, Patches::apply_pre_default: every lookup of a class or property named by a patch file ends the generation with an error when the name is missing from the dump (`ok_or_else(..)?`, or a `None` arm that returns an error); a patch entry that is skipped silently leaves its counterpart applied — e.g. `Size: SerializesAs size` without `size: AliasFor Size` — and the regenerated database is no longer closed")
+    fns = [f for f in prog.fns.values() if f.crate == "rbx_reflector" and f.body is not None and f.path.endswith("Patches::apply_pre_default")]
+    if not fns:
+        raise core.AnchorMissing("rbx_reflector::patches::Patches::apply_pre_default not found")
+    fn = fns[0]
+    lookups = [x for x in core.walk_fn(fn) if x.get("k") == "MethodCall" and x["m"] in ("get_mut", "get") and re.search(r"HashMap<.*(ClassDescriptor|PropertyDescriptor)", (core.strip(x["recv"]).get("ty") or ""))]
+    c.floor(R, len(lookups), 2, "class / property lookups in apply_pre_default")
+    for i, g in enumerate(lookups):
+        what = "class" if "ClassDescriptor" in (core.strip(g["recv"]).get("ty") or "") else "property"
+        inst = f"patch-lookup:{what}:{i}"
+        ok = False
+        for t in core.walk_fn(fn):
+            inner = core.as_try(t)
+            if inner is not None and any(y is g for y in core.walk(inner)) and any(y.get("k") == "MethodCall" and y["m"] in ("ok_or", "ok_or_else", "context", "with_context") for y in core.walk(inner)):
+                ok = True
+            if t.get("k") == "Match" and t.get("src") == "Normal" and any(y is g for y in core.walk(t["e"])):
+                for arm in t["arms"]:
+                    if core.pat_str(arm["pat"]).endswith("None"):
+                        body = arm["body"]
+                        if any(y.get("k") == "Ret" for y in core.walk(body)) and not any(y.get("k") == "Continue" for y in core.walk(body)):
+                            ok = True
+        if ok:
+            c.ok(R, inst)
+        else:
+            c.violation(R, f"stale-patch-tolerated|{what}", f"apply_pre_default looks a {what} named by a patch up and goes on when it is missing (no error return on `None`): the rest of the patch — including the entry that refers to the missing member — is still applied, so the generated database can hold a SerializesAs / AliasFor target that does not exist", core.loc(g), instance=inst)
+
+
 def rule_load(c, prog):
     R = "C16.load"
     c.rule(R, "the MessagePack shape read by the analysis (array-encoded structs, field order) matches the ReflectionDatabase ADTs, so a struct change that breaks loading of the bundled file is visible without loading it")
@@ -391,6 +421,29 @@ def rule_load(c, prog):
             c.ok(R, path)
         else:
             c.violation(R, f"shape|{path}", f"{path} fields are {got}; the bundled database.msgpack stores them positionally as {fields}: decoding the bundled file would fail or mis-assign", a["sp"], instance=path)
+    # the generator writes these structs with rmp_serde's compact (positional array) encoding: a field that is written
+    # only under a condition (`skip_serializing_if`) shifts every later field, and the written database cannot be
+    # read back. Read off the derived Serialize impls: one serialize_field per field, none skipped, none conditional
+    SER = "serde_core::ser::Serialize"
+    for path, fields in want.items():
+        try:
+            f = prog.impl_fn(SER, path, "serialize")
+        except core.AnchorMissing:
+            f = None
+        if f is None:
+            cand = [i for i in prog.impls if i.get("trait") == SER and i["self"].split("<")[0] == path]
+            f = prog.fns.get(next((it["path"] for i in cand for it in i["items"] if it["name"] == "serialize"), "")) if cand else None
+        inst = f"positional:{path}"
+        if f is None or f.body is None:
+            c.not_decided.append(f"{path}: derived Serialize impl not found")
+            continue
+        sf = [x for x in core.walk_fn(f) if x.get("k") in ("MethodCall", "Call") and ((x.get("m") == "serialize_field") or (core.callee_generic(x) or "").endswith("SerializeStruct::serialize_field"))]
+        skips = [x for x in core.walk_fn(f) if x.get("k") in ("MethodCall", "Call") and ((x.get("m") == "skip_field") or (core.callee_generic(x) or "").endswith("SerializeStruct::skip_field"))]
+        cond = [y for y in core.walk_fn(f) if y.get("k") == "If" and any(any(z is x for z in core.walk(y)) for x in sf)]
+        if skips or cond or len(sf) != len(fields):
+            c.violation(R, f"positional|{path}", f"the Serialize impl of {path} writes {len(sf)} of {len(fields)} fields, {len(skips)} of them skippable / {len(cond)} under a condition: in rmp_serde's compact encoding structs are positional arrays, so a database regenerated by rbx_reflector with a skipped field (e.g. the root class's `superclass: None`) cannot be loaded again", f.sp, instance=inst)
+        else:
+            c.ok(R, inst)
     for path, variants in (("rbx_reflection::database::PropertyKind", ["Canonical", "Alias"]),
                            ("rbx_reflection::database::PropertySerialization", ["Serializes", "DoesNotSerialize", "SerializesAs", "Migrate"]),
                            ("rbx_reflection::database::DataType", ["Value", "Enum"])):
@@ -516,8 +569,15 @@ def run(c, prog):
     rule_oblig(c, prog, results)
     rule_dflt(c, prog)
     rule_load(c, prog)
+    rule_gen(c, prog)
     rule_closed(c, prog, d)
     rule_xref(c, prog, d)
     from . import C06
     C06.rule_desc(core.Alias(c, "C16"), prog)
+    # `an instance populated with its class's defaults is written and read back unchanged by both formats`: the scalar
+    # codecs of the binary format (the defaults include i32::MAX) and the XML SharedString dictionary (31 defaults are the
+    # empty SharedString) are the parts of the codecs that clause leans on
+    from . import C01_alg, C02
+    C01_alg.run(core.Alias(c, "C16"), prog)
+    C02.rule_twopass(core.Alias(c, "C16"), prog)
     c.not_decided += ["`written and read back unchanged by both formats` (a run)", "future databases (the check reads whatever database is in the tree)"]
